@@ -1152,21 +1152,30 @@ def check_block_accumulators(ctx: Ctx) -> None:
     aug: set[str] = set()
     read_in_tests: set[str] = set()
     inline_methods = {rm.methods[r.type_name].qual for r in rm.mm.registered if r.type_name in rm.methods and (r.kind == "inline" or r.type_name in INLINE_LIKE)}
-    for m in cls.methods.values():
-        if isinstance(m.node, ast.Lambda) or not m.params or m.qual not in inline_methods:
+    # the inline render methods and the self-methods they call (an `_emit(text)` helper that does the appending)
+    group: dict[str, FuncInfo] = {}
+    work = [m for m in cls.methods.values() if m.qual in inline_methods]
+    while work:
+        m = work.pop()
+        if m.qual in group or isinstance(m.node, ast.Lambda):
+            continue
+        group[m.qual] = m
+        for c in walk_no_nested(m.node):
+            if isinstance(c, ast.Call):
+                t = prog.resolve_call(m, c)
+                if isinstance(t, list) and len(t) == 1 and t[0].cls is cls and not t[0].name.startswith("render"):
+                    work.append(t[0])
+    for m in group.values():
+        if not m.params:
             continue
         selfname = m.params[0]
-        flow = prog.flow(m)
-        for n in flow.cfg.nodes:
-            if n.kind == "stmt" and isinstance(n.ast, ast.AugAssign) and isinstance(n.ast.op, ast.Add):
-                k = chain_key(n.ast.target)
+        for n in walk_no_nested(m.node):
+            if isinstance(n, ast.AugAssign) and isinstance(n.op, ast.Add):
+                k = chain_key(n.target)
                 if k and k.startswith(selfname + "."):
                     aug.add(k.split(".", 1)[1])
-            if n.kind == "test":
-                sl = prog.slice(m, n.ast, n)
-                for a in sl.attrs():
-                    if a.startswith(selfname + "."):
-                        read_in_tests.add(a.split(".")[1])
+            elif isinstance(n, ast.Attribute) and isinstance(n.ctx, ast.Load) and isinstance(n.value, ast.Name) and n.value.id == selfname:
+                read_in_tests.add(n.attr)
     accs = sorted(aug & read_in_tests)
     ctx.note("per_block_accumulators", accs)
     ctx.require("R-STATE", "per-block accumulator fields of the renderer", len(accs), 1)
